@@ -5,6 +5,7 @@ import (
 	"context"
 	"encoding/json"
 	"fmt"
+	"io"
 	"os"
 	"os/exec"
 	"path/filepath"
@@ -19,6 +20,9 @@ import (
 	"verif/harness/internal/report"
 	"verif/harness/internal/rng"
 )
+
+// DefaultNoticer is nfpm's own deprecation notice writer as the process started with it (set by the harness main).
+var DefaultNoticer io.Writer
 
 func init() {
 	Registry["C12"] = runC12
